@@ -31,6 +31,7 @@ def vstr(text, origin="data", safe=False):
 def vlist(items, tup=False): return {"t": "list", "v": list(items), "tup": tup}
 def vdict(pairs): return {"t": "dict", "k": [k for k, _ in pairs], "v": [v for _, v in pairs]}
 def vobj(oid): return {"t": "obj", "id": oid}
+def vtplobj(name): return {"t": "tplobj", "n": name}      # a loaded Template object (env.get_template(name)) passed as data
 def vfn(fid, mode="const", ret=None): return {"t": "fn", "id": fid, "mode": mode, "ret": ret if ret is not None else VNONE}
 
 GLOBALS = {"range": {"t": "builtin", "n": "range"}, "namespace": {"t": "builtin", "n": "namespace"},
@@ -384,6 +385,25 @@ class Raiser:
                "TypeError": TypeError}[self.exc](what)
 
 
+class TplRef:
+    """Placeholder for a Template object in abstract data: resolved with resolve_tplrefs once the environment exists."""
+
+    def __init__(self, name):
+        self.name = name
+
+
+def resolve_tplrefs(x, env):
+    if isinstance(x, TplRef):
+        return env.get_template(x.name)
+    if isinstance(x, list):
+        return [resolve_tplrefs(v, env) for v in x]
+    if isinstance(x, tuple):
+        return tuple(resolve_tplrefs(v, env) for v in x)
+    if isinstance(x, dict):
+        return {k: resolve_tplrefs(v, env) for k, v in x.items()}
+    return x
+
+
 class FaultyIter:
     """Iterable whose k-th step raises the private exception."""
 
@@ -505,6 +525,8 @@ def to_py(v, objs, log, cache=None, async_fns=False):
         return f
     if t == "raiser":
         return Raiser(v["exc"], v["id"])
+    if t == "tplobj":
+        return TplRef(v["n"])
     if t == "iterfault":
         return FaultyIter([to_py(x, objs, log, cache, async_fns) for x in v["v"]], v["k"], v["id"])
     raise ValueError(t)
